@@ -83,6 +83,10 @@ def run(ctx, prefixes):
         # the receiver stops reading while 64 KiB of DATA are on their way to it, lowers its initial window to 0, reads again:
         # the acknowledgement of that SETTINGS frame comes after the DATA that was admitted before it (MC_H2Relay_AckOvertakes)
         {"h": [act("headers", 1), act("bpause")] + [act("data", 1, 4000)] * 16 + [act("ctl", 0, t="SI", v=0), act("bresume")], "dir": "s2c"},
+        # the receiver enlarges a stream's window before the relay has passed on anything on that stream; the body that
+        # follows needs the enlarged window
+        {"h": [act("ctl", 1, t="WU", v=65535), act("ctl", 0, t="WU", v=65535), act("headers", 1), act("data", 1, 40000), act("data", 1, 40000),
+               act("data", 1, 40000, es=True)]},
         # two streams wait for the connection window at once (their own windows are wide open); the connection-level
         # WINDOW_UPDATE that comes covers less than the two could send together: they share it
         {"h": [act("ctl", 1, t="WU", v=65535), act("ctl", 3, t="WU", v=65535), act("headers", 1), act("headers", 3), act("data", 1, 50000),
